@@ -1,6 +1,7 @@
 package main
 
 import (
+	"regexp"
 	"fmt"
 	"go/token"
 	"go/types"
@@ -52,6 +53,12 @@ func (vc *VC) call(c *ssa.CallCommon, res *ssa.Call, pos token.Pos) SVal {
 			key = f.Origin().String()
 		}
 		con := vc.eng.contracts.M[key]
+		if con == nil && strings.Contains(key, "[") {
+			// method of a generic type: contracts are keyed without the type parameter list
+			if c2 := vc.eng.contracts.M[reTypeArgs.ReplaceAllString(key, "")]; c2 != nil {
+				con = c2
+			}
+		}
 		var args []SVal
 		var names []string
 		sig := f.Signature
@@ -88,6 +95,26 @@ func (vc *VC) call(c *ssa.CallCommon, res *ssa.Call, pos token.Pos) SVal {
 	vc.havocAll()
 	return vc.fresh(rt, "dyn")
 }
+
+// valueOnlyStdlib: key names a function of a dot-free (standard library) import path and every
+// parameter is a basic type (string, number, bool).
+func valueOnlyStdlib(key string, sig *types.Signature) bool {
+	if sig.Recv() != nil || strings.HasPrefix(key, "(") {
+		return false
+	}
+	i := strings.LastIndex(key, ".")
+	if i < 0 || strings.Contains(key[:i], ".") {
+		return false
+	}
+	for j := 0; j < sig.Params().Len(); j++ {
+		if _, ok := sig.Params().At(j).Type().Underlying().(*types.Basic); !ok {
+			return false
+		}
+	}
+	return !sig.Variadic()
+}
+
+var reTypeArgs = regexp.MustCompile(`\[[^\[\]]*\]`)
 
 func typeString(T types.Type) string { return types.TypeString(T, nil) }
 
@@ -127,6 +154,13 @@ func (vc *VC) applyContract(con *Contract, key string, names []string, args []SV
 	vc.nCalls++
 	if con == nil {
 		vc.uncontracted[key] = true
+		if valueOnlyStdlib(key, sig) {
+			// A standard-library function whose parameters and receiver are numbers, booleans and
+			// strings holds no reference to caller-visible memory: it cannot write any. Its result
+			// is arbitrary (a fresh value); its panics are not excluded.
+			vc.note("call to %s without contract: standard-library function with value-only parameters - result arbitrary, no memory written, callee panics not excluded", key)
+			return vc.fresh(rt, "uc")
+		}
 		if len(vc.enclosingLoops(vc.cur)) > 0 {
 			unsup("call to %s (no contract) inside a loop: it may modify any memory", key)
 		}
